@@ -446,7 +446,7 @@ def network_runs(ctx, corr):
     return nets
 
 
-def network_corr(ctx, corr, nets):
+def network_corr(ctx, corr, nets, exact=True):
     SH = 60
     cases = [n.coq_case() for n in nets]
     shards = ['Definition cases : list case_net := [\n' + ';\n'.join(cases[i:i + SH]) + '\n].' for i in range(0, len(cases), SH)]
@@ -458,6 +458,8 @@ def network_corr(ctx, corr, nets):
             corr.disagreements.append({'what': 'two recorded endpoints vs model/Network.v (net_run replayed on the recorded history)',
                                        'run': n.desc, 'kind': 'network',
                                        'note': 'an event\'s effects, a delivered frame or the final content of a link differs'})
+    if not exact:
+        return
     # on how many of the recorded REAL histories are the premises of C01_network_exactly_once met (listening throughout, link
     # drained, something with content delivered)?  counted inside Coq with the decidable form of the premise; the
     # conclusion is recomputed on those pairs (a failure there would contradict the theorem, or mean the build is stale)
